@@ -23,7 +23,8 @@ from vcdd.oracle.ircmp import canon
 
 KINDS = ("function_parse_partial", "emit_class", "emit_function", "emit_argparse", "emit_sqlalchemy", "emit_docstring",
          "json_schema", "infer_imports", "merge_assignment_lists", "gen_file", "gen_file_imports", "doctrans",
-         "openapi", "class_parse", "sync_properties", "optimise_imports", "emit_sqlalchemy_custom")
+         "openapi", "class_parse", "sync_properties", "optimise_imports", "emit_sqlalchemy_custom", "docstring_parse",
+         "function_parse_footer")
 
 # a small shared pool of type names the converters have no table entry for: a later case meets names an earlier
 # (or an interleaved, unrelated) conversion has already seen - what a module-level table that learns would change
@@ -96,6 +97,21 @@ def run_case(kind, r, tmp):
         import cdd.function.parse
 
         return canon(cdd.function.parse.function(ast.parse(src).body[0]))
+    if kind in ("docstring_parse", "function_parse_footer"):
+        # grammar docstrings with prose / sections after the parameter block (notes, examples, usage, raises), with and
+        # without a return section: the parse phase edits what the scan phase produced
+        from vcdd.gen import docgen
+        import cdd.docstring.parse
+        import cdd.function.parse
+
+        style = r.choice(("google", "google", "numpydoc", "rest"))
+        params = docgen.rand_params(r, n=r.randint(1, 4))
+        text, parts = docgen.compose(r, style, indent=1 if kind == "function_parse_footer" else 0, params=params,
+                                     with_footer=r.random() < 0.8, returns=Ellipsis if r.random() < 0.5 else None)
+        if kind == "docstring_parse":
+            return canon(cdd.docstring.parse.docstring(text))
+        src = 'def foo(%s):\n    """%s"""\n    return None\n' % (", ".join(p[0] for p in params), text)
+        return hops.emit(cdd.function.parse.function(ast.parse(src).body[0]), "class")[1]
     if kind == "emit_sqlalchemy_custom":
         return hops.emit(custom_ir(r), r.choice(("sqlalchemy", "sqlalchemy_table", "sqlalchemy_hybrid")))[1]
     if kind.startswith("emit_"):
